@@ -21,8 +21,8 @@ from vlib.vparse import VhdlSyntaxError
 PID = 'C07'
 RULE = ("target in {output port, local signal, input port, variable, local intermediate}; writer/reader sites in "
         "{seq A, seq B, concurrent, always block of A, output of instance 1, second output of instance 1, output of "
-        "instance 2}; write shapes {whole, slice, element, run-time element, typed view, via helper function, ^= push, "
-        ".next}; all single sites, all ordered pairs of sites x shape pairs (quick: sampled), sampled triples.  "
+        "instance 2, output of a same-named class with reversed port directions}; write shapes {whole, slice, element, run-time "
+        "element, typed view, via helper function, ^= push, .next, inline VHDL, nested inline VHDL}; optional always-expression reader; all single sites, all ordered pairs of sites x shape pairs (quick: sampled), sampled triples.  "
         "distinct_nontrivial = distinct (target, site/shape multiset) with a decided verdict.")
 ASSUMPTIONS = ["driver sets are computed by vsim's elaborator from the emitted text (process / concurrent block marker "
                "comments / instance paths)"]
